@@ -2,6 +2,7 @@
 namespace Larking.Expected.C07
 
 def conds_Mux_serveHTTP : List String := [
+   "func (*Mux) serveHTTP(w http.ResponseWriter, r *http.Request) (rerr error)",
    "if isWebsocket",
    "if err != nil",
    "return err",
@@ -41,6 +42,7 @@ def conds_Mux_serveHTTP : List String := [
   ]
 
 def conds_params_set : List String := [
+   "func (params) set(m proto.Message) error",
    "range ps",
    "range p.fds",
    "if err != nil",
@@ -55,6 +57,7 @@ def conds_params_set : List String := [
   ]
 
 def conds_streamHTTP_RecvMsg : List String := [
+   "func (*streamHTTP) RecvMsg(m interface{}) error",
    "if s.method.hasBody && s.hasBody",
    "if err != nil",
    "return err",
